@@ -23,7 +23,7 @@ the public functions of the numeric modules are therefore wrapped (harness-side 
 
 An event is reported by check.py as a violation whose replay is the concrete call history.
 """
-import copy, functools, inspect
+import copy, functools, inspect, json, os, sys
 import numpy as np
 
 EVENTS = []
@@ -190,6 +190,20 @@ def _dtype_probe(modname, name, f, args, kw):
 
 CONTAINER_EVENTS = []
 NO_CONTAINER = set()
+_CONTAINER_BASELINE_PATH = os.path.join(os.path.dirname(os.path.abspath(__file__)), 'container_baseline.json')
+try:
+    _CONTAINER_BASELINE = json.load(open(_CONTAINER_BASELINE_PATH))
+except Exception:
+    _CONTAINER_BASELINE = {}
+# VERIF_CONTAINER_RECORD=<file>: (maintenance, on the reviewed tree only) append 'key status' lines; merged into the baseline by
+# `python harness/purity.py --merge-container-baseline <file>...`
+_CONTAINER_RECORD = os.environ.get('VERIF_CONTAINER_RECORD')
+
+
+def _container_record(key, status):
+    with open(_CONTAINER_RECORD, 'a') as fh:
+        fh.write('%s %s\n' % (key, status))
+
 
 
 def _container_variants(a):
@@ -212,7 +226,17 @@ def _container_probe(modname, name, f, args, kw, live):
             b[i] = v
             r = _call(f, b, copy.deepcopy(kw))
             STATS['container_probes'] = STATS.get('container_probes', 0) + 1
-            bad = r[0] != 'ok' or not _close(live[1], r[1])
+            fn = '%s.%s' % (modname.split('.')[-1], name)
+            key = '%s|%d|%s->%s' % (fn, i, type(a).__name__, label)
+            if _CONTAINER_RECORD:
+                _container_record(key, 'ok' if r[0] == 'ok' else 'raise')
+            if r[0] != 'ok':
+                # an exception for another container is an alarm only where the reviewed tree is known to accept that container for
+                # that argument (harness/container_baseline.json, recorded on the reviewed tree): most of the API was never written
+                # for lists (FormFactor('Y', [0., .25]) raises TypeError in the pinned code) and that is not what any property says
+                bad = _CONTAINER_BASELINE.get(key) == 'ok'
+            else:
+                bad = not _close(live[1], r[1])
             if bad and len(CONTAINER_EVENTS) < 40:
                 CONTAINER_EVENTS.append({'fn': '%s.%s' % (modname.split('.')[-1], name), 'arg_index': i, 'container': label,
                                          'original_container': type(a).__name__, 'args': _plain(args),
@@ -528,3 +552,17 @@ def replay(v):
     print('replay %s (%s): used module %s | pristine module %s -> %s' % (
         v['fn'], v['scenario'], _plain(r1[1]), _plain(r2[1]), 'VIOLATION' if bad else 'holds'))
     return 1 if bad else 0
+
+
+if __name__ == '__main__':
+    # maintenance: python harness/purity.py --merge-container-baseline rec1 [rec2 ...]
+    # a key is 'ok' in the baseline only if every recorded probe of it succeeded
+    if len(sys.argv) >= 3 and sys.argv[1] == '--merge-container-baseline':
+        acc = {}
+        for path in sys.argv[2:]:
+            for line in open(path):
+                k, st = line.rsplit(' ', 1)
+                st = st.strip()
+                acc[k] = 'raise' if (st == 'raise' or acc.get(k) == 'raise') else 'ok'
+        json.dump(dict(sorted(acc.items())), open(_CONTAINER_BASELINE_PATH, 'w'), indent=0)
+        print('container baseline: %d keys, %d accept the other container' % (len(acc), sum(v == 'ok' for v in acc.values())))
